@@ -20,3 +20,5 @@ def run(ctx):
         g72x.run(ctx, "C07", 120 if q else 1200)
         from .. import gsm
         gsm.run(ctx, "C07", 100 if q else 1000)
+        from .. import alac           # CAF/ALAC: packet staging, pakt / kuki chunks, read / seek around the codec core (lean/SfModel/AlacFile.lean)
+        alac.run(ctx, "C07", 96 if q else 960)
